@@ -7,6 +7,8 @@ ID = "C44"
 PROP_MODULE = "SquidModel.Properties.C44"
 MODEL = "c44"
 GEN = []
+MAX_REPORT = 6          # failing cases that are minimised and reported per run (the rest only counts)
+MINIMISE_BUDGET = 150
 RULE = ("one line = one configuration (synthetic leaf ACLs, all-of/any-of groups written as acl directives, allow/deny rules; all of it "
         "goes through the real ConfigParser, Acl::Node::ParseNamedAcl, AllOf::parse, AnyOf::parse, InnerNode::lineParse and "
         "aclParseAccessLine) + 1..4 checklists over it (nonBlockingCheck or fastCheck, per-leaf truth value, per-leaf list of lookups "
